@@ -226,7 +226,6 @@ theorem dash_noContinuation (W : Nat) (h : col < W) : parseContinuation (dashLin
   have : ¬ (col ≥ W) := by omega
   simp [expandtabs, expandtabsAux_noTab _ 0 hnt, this]
 
-include hcol in
 theorem dash_delimiterRow : delimiterRow (dashLine col t) = false := by
   obtain ⟨c, r, rfl, hc, _⟩ := ht
   have hp := alpha_plainChar c hc
@@ -236,6 +235,9 @@ theorem dash_delimiterRow : delimiterRow (dashLine col t) = false := by
     simp [span, ws, show pyIsSpace '-' = false by decide]
   have h2 : alignCol ('-' :: ' ' :: (c :: r ++ ['\n'])) = some (['-'], ' ' :: (c :: r ++ ['\n'])) := by
     simp [alignCol, span]
+  show (match alignCol (span ws ('-' :: ' ' :: (c :: r ++ ['\n']))).snd with
+    | some (_, r3) => delimRest ((List.replicate col ' ' ++ '-' :: ' ' :: (c :: r ++ ['\n'])).length + 1) r3
+    | none => false) = false
   simp only [h1, h2]
   simp [delimRest, span, ws, hp.nsp, show pyIsSpace ' ' = true by decide, hp.n_bar]
 
@@ -269,19 +271,285 @@ theorem anyInterrupt_dash_para (cfg : Cfg) (fw : FW) (l : Line) (hp : fw.peek = 
       rcases List.mem_cons.mp hm with h | h
       · exact absurd h.symm hne
       · exact h
+    have hone : ∃ b, interruptsOne cfg fw x = .ok b ∧ (x = .list → b = true) := by
+      unfold interruptsOne
+      rw [hp]
+      cases x <;> simp [hl, hn.html, dash_listInterrupts ht col hcol]
+    obtain ⟨b, hb, hbl⟩ := hone
     simp only [anyInterrupt]
-    cases x <;> simp only [hasInterrupt, Bool.not_true, Bool.not_false, Bool.false_or, Bool.true_or, Bool.or_false, if_true]
-    all_goals first
-      | exact ih (by decide)
-      | skip
-    all_goals simp only [interruptsOne, hp, hl, hn.hd, hn.qt, hn.cf, hn.html, dash_listInterrupts ht col hcol]
-    all_goals first
-      | exact ih (by decide)
-      | rfl
-      | skip
-    all_goals trace_state
-    all_goals sorry
+    split
+    · rename_i hcond
+      exact ih (by rintro rfl; simp [hasInterrupt] at hcond)
+    · rw [hb]
+      cases b with
+      | true => rfl
+      | false => exact ih (fun e => by have := hbl e; cases this)
 
 end Dash
+
+theorem indentedAll_append (W : Nat) : ∀ (a' a b' b : List Line), IndentedAll W a' a → IndentedAll W b' b →
+    IndentedAll W (a' ++ b') (a ++ b)
+  | [], [], _, _, _, hb => hb
+  | [], _ :: _, _, _, ha, _ => by simp [IndentedAll] at ha
+  | _ :: _, [], _, _, ha, _ => by simp [IndentedAll] at ha
+  | x' :: a', x :: a, b', b, ha, hb => ⟨ha.1, indentedAll_append W a' a b' b ha.2 hb⟩
+
+/-! ### Outlines -/
+
+/-- an outline: a heading with the headings below it -/
+inductive O where
+  | node (text : Str) (kids : List O)
+
+mutual
+/-- number of headings -/
+def sizeO : O → Nat
+  | .node _ kids => size kids + 1
+def size : List O → Nat
+  | [] => 0
+  | o :: os => sizeO o + size os
+end
+
+mutual
+/-- pre-order with levels: `kids` one level deeper -/
+def flattenO (lv : Nat) : O → List (Nat × Str)
+  | .node t kids => (lv, t) :: flatten (lv + 1) kids
+def flatten (lv : Nat) : List O → List (Nat × Str)
+  | [] => []
+  | o :: os => flattenO lv o ++ flatten lv os
+end
+
+mutual
+/-- every title is a plain-word title -/
+def okO : O → Bool
+  | .node t kids => plainTitle t && oks kids
+def oks : List O → Bool
+  | [] => true
+  | o :: os => okO o && oks os
+end
+
+mutual
+/-- the list lines: a heading at column `col`, the headings below it four columns further in -/
+def olinesO (col : Nat) : O → List Str
+  | .node t kids => dashLine col t :: olines (col + 4) kids
+def olines (col : Nat) : List O → List Str
+  | [] => []
+  | o :: os => olinesO col o ++ olines col os
+end
+
+mutual
+/-- the same with ghost origins `n, n + 1, …` -/
+def lnsO (col n : Nat) : O → List Line
+  | .node t kids => { s := dashLine col t, origin := n } :: lns (col + 4) (n + 1) kids
+def lns (col n : Nat) : List O → List Line
+  | [] => []
+  | o :: os => lnsO col n o ++ lns col (n + sizeO o) os
+end
+
+mutual
+/-- the item of a heading found on line `n` at indentation `ind`: a paragraph with the title and, if there are
+    headings below it, one list of their items (they follow on the next line, at indentation 2 inside the item) -/
+def expItem (ind n : Nat) : O → Item
+  | .node t kids =>
+    .mk (.paragraph [t ++ ['\n']] n n ::
+          (if kids.isEmpty then [] else [.list (expItems 2 (n + 1) kids) (n + 1) (n + 1)]))
+      false ind (ind + 2) ['-'] n n
+def expItems (ind n : Nat) : List O → List Item
+  | [] => []
+  | o :: os => expItem ind n o :: expItems ind (n + sizeO o) os
+end
+
+/-- the content of the item of `o` -/
+def expInner (n : Nat) : O → List Entry
+  | .node t kids =>
+    .paragraph [t ++ ['\n']] n n :: (if kids.isEmpty then [] else [.list (expItems 2 (n + 1) kids) (n + 1) (n + 1)])
+
+/-- the lines `ListItem.read` hands to the nested tokenizer for `o` -/
+def itemBuf (n : Nat) : O → List Line
+  | .node t kids => { s := t ++ ['\n'], origin := n } :: lns 2 (n + 1) kids
+
+def O.text : O → Str
+  | .node t _ => t
+
+mutual
+theorem lnsO_length (col n : Nat) : ∀ (o : O), (lnsO col n o).length = sizeO o
+  | .node t kids => by simp [lnsO, sizeO, lns_length (col + 4) (n + 1) kids]
+theorem lns_length (col n : Nat) : ∀ (os : List O), (lns col n os).length = size os
+  | [] => rfl
+  | o :: os => by simp [lns, size, lnsO_length col n o, lns_length col (n + sizeO o) os]
+end
+
+mutual
+theorem indentedO (W : Nat) : ∀ (o : O) (col n : Nat), okO o = true → IndentedAll W (lnsO (W + col) n o) (lnsO col n o)
+  | .node t kids, col, n, h => by
+    simp only [okO, Bool.and_eq_true] at h
+    simp only [lnsO]
+    refine ⟨⟨rfl, Or.inr ⟨dash_contLine ((plainTitle_iff t).mp h.1) col, ?_⟩⟩, ?_⟩
+    · simp [dashLine, ← List.replicate_append_replicate]
+    · have := indented W kids (col + 4) (n + 1) h.2
+      rw [show W + (col + 4) = W + col + 4 by omega] at this
+      exact this
+theorem indented (W : Nat) : ∀ (os : List O) (col n : Nat), oks os = true → IndentedAll W (lns (W + col) n os) (lns col n os)
+  | [], _, _, _ => trivial
+  | o :: os, col, n, h => by
+    simp only [oks, Bool.and_eq_true] at h
+    simp only [lns]
+    exact indentedAll_append W _ _ _ _ (indentedO W o col n h.1) (indented W os col (n + sizeO o) h.2)
+end
+
+theorem dashLine_ne_nl (c : Nat) (t : Str) : dashLine c t ≠ ['\n'] := by
+  intro e
+  have := congrArg List.length e
+  simp [dashLine] at this
+  omega
+
+mutual
+theorem lnsO_dash (col n : Nat) : ∀ (o : O), ∀ l ∈ lnsO col n o, ∃ c t, l.s = dashLine c t
+  | .node t kids => by
+    intro l hl
+    simp only [lnsO, List.mem_cons] at hl
+    rcases hl with rfl | hl
+    · exact ⟨col, t, rfl⟩
+    · exact lns_dash (col + 4) (n + 1) kids l hl
+theorem lns_dash (col n : Nat) : ∀ (os : List O), ∀ l ∈ lns col n os, ∃ c t, l.s = dashLine c t
+  | [] => by intro l hl; simp [lns] at hl
+  | o :: os => by
+    intro l hl
+    simp only [lns, List.mem_append] at hl
+    rcases hl with hl | hl
+    · exact lnsO_dash col n o l hl
+    · exact lns_dash col (n + sizeO o) os l hl
+end
+
+theorem trailNl_lns (col n : Nat) (os : List O) : trailNl 0 (lns col n os) = 0 := by
+  refine trailNl_zero _ 0 ?_ (fun _ => rfl)
+  intro l hl
+  obtain ⟨c, t, h⟩ := lns_dash col n os l (List.mem_of_getLast? hl)
+  rw [h]; exact dashLine_ne_nl c t
+
+/-- the `while True` loop of `ListItem.read` over the item's lines, then a sibling's line: not indented enough,
+    carrying a marker, interrupting nothing -- the loop stops there and reports the marker -/
+theorem itemLoop_then_marker (cfg : Cfg) (W start : Nat) (l' : Line) (post' : List Line) (m : Nat × Nat × Str × Str)
+    (hnc : parseContinuation l'.s W = none) (hm : parseMarker l'.s = some m)
+    (hni : ∀ (fw : FW), fw.peek = some l' → anyInterrupt cfg fw .list true cfg.types = .ok false) :
+    ∀ (rest' rest pre' buf : List Line) (nl fuel : Nat),
+    IndentedAll W rest' rest → rest'.length < fuel →
+    itemLoop cfg W fuel ⟨pre' ++ (rest' ++ l' :: post'), pre'.length, start⟩ buf nl =
+      .ok (rest.reverse ++ buf, ⟨pre' ++ (rest' ++ l' :: post'), pre'.length + rest'.length, start⟩, some m)
+  | _, _, _, _, _, 0, _, hf => by simp at hf
+  | [], [], pre', buf, nl, fuel + 1, _, _ => by
+    have hp := peek_at pre' l' post' start
+    simp only [List.nil_append, List.length_nil, Nat.add_zero, List.reverse_nil]
+    simp only [itemLoop, hp, hnc, hm, hni _ hp, Option.isSome_some]
+  | [], _ :: _, _, _, _, _ + 1, h, _ => by simp [IndentedAll] at h
+  | _ :: _, [], _, _, _, _ + 1, h, _ => by simp [IndentedAll] at h
+  | x' :: rest', x :: rest, pre', buf, nl, fuel + 1, h, hf => by
+    obtain ⟨⟨ho, hl⟩, hrest⟩ := h
+    have hp := peek_at pre' x' (rest' ++ l' :: post') start
+    have hn : (FW.next ⟨pre' ++ x' :: (rest' ++ l' :: post'), pre'.length, start⟩) =
+        ⟨(pre' ++ [x']) ++ (rest' ++ l' :: post'), (pre' ++ [x']).length, start⟩ := by
+      simp [FW.next]
+    have ih := fun buf nl => itemLoop_then_marker cfg W start l' post' m hnc hm hni rest' rest (pre' ++ [x']) buf nl fuel hrest
+      (by simp only [List.length_cons] at hf; omega)
+    have hcont : parseContinuation x'.s W = some x.s := by
+      rcases hl with ⟨h1, h2⟩ | ⟨h1, h2⟩
+      · rw [h1, h2]; exact parseContinuation_nl W
+      · rw [h2]; exact parseContinuation_indented W x.s h1
+    have hne : x.s.isEmpty = false := by
+      rcases hl with ⟨h1, _⟩ | ⟨⟨n, c, body, h1, _⟩, _⟩ <;> rw [h1] <;> simp
+    have el : ({ s := x.s, origin := x'.origin } : Line) = x := by cases x; simp_all
+    simp only [List.cons_append, itemLoop, hp, hcont, hne, Bool.false_eq_true, if_false]
+    rw [hn, ih, el]
+    simp only [List.reverse_cons, List.append_assoc, List.singleton_append, List.length_append,
+      List.length_cons, List.length_nil]
+    have e : pre'.length + (0 + 1) + rest'.length = pre'.length + (rest'.length + 1) := by omega
+    rw [e]
+
+/-- **ListItem.read** up to the nested tokenizer, for an item whose lines `rest'` are followed by the end of the
+    buffer or by a sibling's marker line -/
+theorem itemLines_core (cfg : Cfg) (ind W : Nat) (ld content : Str) (l0' : Line) (rest' rest post pre : List Line) (start : Nat)
+    (prev : Option (Nat × Nat × Str × Str))
+    (hmk : prev = some (ind, W, ld, content) ∨ (prev = none ∧ parseMarker l0'.s = some (ind, W, ld, content)))
+    (hnb : isBlank content = false) (hrest : IndentedAll W rest' rest) (next : Option (Nat × Nat × Str × Str))
+    (hpost : (post = [] ∧ next = none ∧ trailNl 0 rest = 0) ∨
+      (∃ l' post' m, post = l' :: post' ∧ next = some m ∧ parseContinuation l'.s W = none ∧ parseMarker l'.s = some m ∧
+        ∀ (fw : FW), fw.peek = some l' → anyInterrupt cfg fw .list true cfg.types = .ok false)) :
+    itemLines cfg ⟨pre ++ l0' :: (rest' ++ post), pre.length, start⟩ prev =
+      .ok (.lines ({ s := content, origin := l0'.origin } :: rest) (start + pre.length) ind W ld (start + pre.length) l0'.origin next
+        ⟨pre ++ l0' :: (rest' ++ post), pre.length + (rest'.length + 1), start⟩) := by
+  have hp := peek_at pre l0' (rest' ++ post) start
+  have hn : (FW.next ⟨pre ++ l0' :: (rest' ++ post), pre.length, start⟩) =
+      ⟨(pre ++ [l0']) ++ (rest' ++ post), (pre ++ [l0']).length, start⟩ := by
+    simp [FW.next]
+  have hln : (FW.lineNumber ⟨(pre ++ [l0']) ++ (rest' ++ post), (pre ++ [l0']).length, start⟩) = start + pre.length := by
+    simp [FW.lineNumber]
+  have hfuel : rest'.length < FW.remaining ⟨pre ++ l0' :: (rest' ++ post), pre.length, start⟩ + 1 := by
+    simp [FW.remaining]; omega
+  have hloop : itemLoop cfg W (FW.remaining ⟨pre ++ l0' :: (rest' ++ post), pre.length, start⟩ + 1)
+      (FW.next ⟨pre ++ l0' :: (rest' ++ post), pre.length, start⟩) [{ s := content, origin := l0'.origin }] 0 =
+      .ok (rest.reverse ++ [{ s := content, origin := l0'.origin }],
+        ⟨pre ++ l0' :: (rest' ++ post), pre.length + (rest'.length + 1), start⟩, next) := by
+    rw [hn]
+    rcases hpost with ⟨rfl, rfl, hnl⟩ | ⟨l', post', m, rfl, rfl, hnc, hm, hni⟩
+    · have := itemLoop_indented cfg W start rest' rest (pre ++ [l0']) [{ s := content, origin := l0'.origin }] 0 _ hrest hfuel
+      simp only [List.append_nil] at this ⊢
+      rw [this, hnl, dropTrailing_zero]
+      simp; omega
+    · have := itemLoop_then_marker cfg W start l' post' m hnc hm hni rest' rest (pre ++ [l0']) [{ s := content, origin := l0'.origin }] 0 _ hrest hfuel
+      rw [this]
+      simp; omega
+  rw [hn] at hloop
+  rcases hmk with rfl | ⟨rfl, h⟩
+  · unfold itemLines
+    simp only [hp, hnb, Bool.false_eq_true, if_false]
+    rw [hn, hloop, hln]
+    simp
+  · unfold itemLines
+    simp only [hp, h, hnb, Bool.false_eq_true, if_false]
+    rw [hn, hloop, hln]
+    simp
+
+def markerOf (col : Nat) (t : Str) : Nat × Nat × Str × Str := (col, col + 2, ['-'], t ++ ['\n'])
+
+def nextOf (col : Nat) : List O → Option (Nat × Nat × Str × Str)
+  | [] => none
+  | o :: _ => some (markerOf col o.text)
+
+/-- `ListItem.read` on the line of a heading: the nested tokenizer gets the title and the lines of the headings
+    below it, re-indented to column 2; the next marker is the next sibling's, if there is one -/
+theorem itemLines_node (cfg : Cfg) (col : Nat) (hcol : col < 4) (t : Str) (kids os : List O)
+    (ht : plainTitle t = true) (hk : oks kids = true) (hos : oks os = true) (pre : List Line) (start : Nat)
+    (prev : Option (Nat × Nat × Str × Str)) (hprev : prev = none ∨ prev = some (markerOf col t)) :
+    itemLines cfg ⟨pre ++ lns col (start + pre.length) (.node t kids :: os), pre.length, start⟩ prev =
+      .ok (.lines (itemBuf (start + pre.length) (.node t kids)) (start + pre.length) col (col + 2) ['-']
+        (start + pre.length) (start + pre.length) (nextOf col os)
+        ⟨pre ++ lns col (start + pre.length) (.node t kids :: os), pre.length + (size kids + 1), start⟩) := by
+  have hT := (plainTitle_iff t).mp ht
+  have hind : IndentedAll (col + 2) (lns (col + 4) (start + pre.length + 1) kids) (lns 2 (start + pre.length + 1) kids) := by
+    have := indented (col + 2) kids 2 (start + pre.length + 1) hk
+    rw [show col + 2 + 2 = col + 4 by omega] at this; exact this
+  have hmk : prev = some (col, col + 2, ['-'], t ++ ['\n']) ∨
+      (prev = none ∧ parseMarker (dashLine col t) = some (col, col + 2, ['-'], t ++ ['\n'])) := by
+    rcases hprev with rfl | rfl
+    · exact Or.inr ⟨rfl, dash_parseMarker hT col hcol⟩
+    · exact Or.inl rfl
+  have key := itemLines_core cfg col (col + 2) ['-'] (t ++ ['\n']) { s := dashLine col t, origin := start + pre.length }
+    (lns (col + 4) (start + pre.length + 1) kids) (lns 2 (start + pre.length + 1) kids)
+    (lns col (start + pre.length + sizeO (.node t kids)) os) pre start prev hmk (title_nonblank hT) hind (nextOf col os) (by
+      cases os with
+      | nil => exact Or.inl ⟨rfl, rfl, trailNl_lns _ _ _⟩
+      | cons o' os' =>
+        cases o' with
+        | node t' kids' =>
+        simp only [oks, okO, Bool.and_eq_true] at hos
+        have hT' := (plainTitle_iff t').mp hos.1.1
+        refine Or.inr ⟨{ s := dashLine col t', origin := start + pre.length + sizeO (.node t kids) },
+          lns (col + 4) (start + pre.length + sizeO (.node t kids) + 1) kids' ++
+            lns col (start + pre.length + sizeO (.node t kids) + sizeO (.node t' kids')) os', markerOf col t', ?_, rfl,
+          dash_noContinuation hT' col (col + 2) (by omega), dash_parseMarker hT' col hcol, ?_⟩
+        · simp [lns, lnsO]
+        · intro fw hp
+          exact anyInterrupt_dash_item hT' col cfg fw _ hp rfl hcol cfg.types)
+  simp only [lns_length] at key
+  simpa [lns, lnsO, itemBuf] using key
 
 end Mistletoe.Block
